@@ -386,6 +386,19 @@ let () =
         Printf.printf "faultrun %s\n" (String.concat " " (List.map (function
             | FTok (r, h) -> Printf.sprintf "T:%d:%d" (int_of_n r) (int_of_nat h)
             | FFatal -> "F") evs))
+      | L [A "m4q"; A scheme; L bytes] ->
+        (* the escaped, wrapped text of a user code region and what the m4 model makes of it *)
+        let u = List.map (fun b -> n_of_int (ai b)) bytes in
+        let (qs, qe) = if scheme = "A" then (qS_A, qE_A) else (qS_B, qE_B) in
+        let e = escape qs qe u in
+        let (o, ok) = m4 (Top []) (wrap e) in
+        Printf.printf "m4q %s esc=%s out=%s ok=%b\n" scheme
+          (String.concat "," (List.map (fun b -> string_of_int (int_of_n b)) e))
+          (String.concat "," (List.map (fun b -> string_of_int (int_of_n b)) o)) ok
+      | L [A "m4raw"; L bytes] ->
+        let u = List.map (fun b -> n_of_int (ai b)) bytes in
+        let (o, ok) = m4 (Top []) u in
+        Printf.printf "m4raw out=%s ok=%b\n" (String.concat "," (List.map (fun b -> string_of_int (int_of_n b)) o)) ok
       | L [A "warncheck"; mode; fuel] ->
         (* mode 0: first-rule selection; 1: REJECT / variable trailing context (every matching rule may be reached) *)
         let rejmode = ab mode in
@@ -552,4 +565,4 @@ let () =
         Printf.printf "matchb %b\n" (matchb re (bytes_of inp))
       | _ -> failwith "query")
     queries;
-  flush stdout
+  Stdlib.flush stdout
